@@ -11,6 +11,7 @@ package main
 
 import (
 	"fmt"
+	"go/token"
 	"go/types"
 	"strings"
 
@@ -126,6 +127,76 @@ func runEngineO2(p *Prog, o *obls) {
 				if canReach(w, f) && !instrDominates(f, w) {
 					bad = append(bad, fmt.Sprintf("%s at %s runs after the downstream Write at %s", shortCallee(calleeName(&f.Call)), p.instrPos(f), p.instrPos(w)))
 				}
+			}
+		}
+		// and what leaves is on file: no downstream Write of a closure that files its packets can be reached from the
+		// closure's entry without passing a filing call. A path that forwards the packet unrecorded — the copy for
+		// retransmission could not be made, "no reason to drop the packet itself" — puts a packet on the wire that a
+		// NACK or an acknowledgement will ask about and the interceptor knows nothing of (and whose sequence number
+		// never advanced the ring's window, so that numbers that have left it are still answered).
+		// a repository helper that is handed the header and files the packet itself (i.addCCFBOutgoing(header, …))
+		filesInside := func(sc *ssa.Function) bool {
+			found := false
+			instrsOf(sc, func(in ssa.Instruction) {
+				call, ok := in.(*ssa.Call)
+				if !ok || found {
+					return
+				}
+				for _, g := range p.Callees(call) {
+					if !p.InUniverse(g) || g.Signature.Recv() == nil {
+						continue
+					}
+					if _, isPtr := g.Signature.Recv().Type().(*types.Pointer); !isPtr {
+						continue
+					}
+					if rn := namedOf(deref(g.Signature.Recv().Type())); rn != nil && fbTypes[typeKey(rn)] && mutatesReceiver(p, g, 0, memo) {
+						found = true
+					}
+				}
+			})
+			return found
+		}
+		isFile := func(in ssa.Instruction) bool {
+			for _, f := range files {
+				if in == ssa.Instruction(f) {
+					return true
+				}
+			}
+			if call, ok := in.(*ssa.Call); ok && !isChainWrite(p, call) {
+				if sc := call.Call.StaticCallee(); sc != nil && p.InUniverse(sc) && sc.Blocks != nil {
+					for _, a := range call.Call.Args {
+						if derivedFromHdr(a) && filesInside(sc) {
+							return true
+						}
+					}
+				}
+			}
+			return false
+		}
+		entry := fn.Blocks[0].Instrs[0]
+		for _, w := range writes {
+			// a packet that is known not to be the stream's own (another SSRC multiplexed on the same writer) is passed
+			// through unrecorded by design
+			foreign := false
+			for _, f := range dominatingFactsInstr(w) {
+				f = normFact(f)
+				bo, ok := f.cond.(*ssa.BinOp)
+				if !ok || !(bo.Op == token.NEQ && f.truth || bo.Op == token.EQL && !f.truth) {
+					continue
+				}
+				for _, side := range []ssa.Value{bo.X, bo.Y} {
+					if u, ok := p.origin(side).(*ssa.UnOp); ok && u.Op == token.MUL {
+						if fa, ok := u.X.(*ssa.FieldAddr); ok && p.origin(addrRoot(fa)) == hdr && fieldName(fieldKeyAddr(fa)) == "SSRC" {
+							foreign = true
+						}
+					}
+				}
+			}
+			if foreign {
+				continue
+			}
+			if !isFile(entry) && pathAvoiding(entry, w, isFile) {
+				bad = append(bad, fmt.Sprintf("the downstream Write at %s can be reached without %s: the packet leaves unrecorded", p.instrPos(w), shortCallee(calleeName(&files[0].Call))))
 			}
 		}
 		if len(bad) > 0 {
